@@ -243,11 +243,9 @@ func (m *Machine) doAssert(fr *frame, c value, label string) {
 		m.solver.declare(neg)
 		m.solver.Push()
 		m.solver.send("(assert " + neg.String() + ")")
-		r := m.checkRefined(neg) // sat models are validated against the native evaluators of the UFs (refine_agentC.go)
 		var model map[string]any
-		if r == Sat {
-			model, _, _ = m.modelOfInputs()
-		}
+		// sat models are validated against the native evaluators of the UFs (refine_agentC.go)
+		r := m.withRefinedModel(func() { model, _, _ = m.modelOfInputs() }, neg)
 		m.solver.Pop()
 		m.flushRefinements()
 		if r == Unsat && !m.crossUnsat(neg) {
